@@ -163,6 +163,10 @@ def check(ctx):
         ctx.sample({'rule': 'C11.S2', 'path': cond_str(p)[:80], 'truncation': {str(k): v for k, v in kinds.items()}})
         # NaN guard
         seen_raise = False
+        if not any(b['price'] for b in s['bodies']):
+            # no price lookup was read on any body path (the price arrives by a route this rule does not follow): nothing to place the NaN check against
+            ctx.undecided('C11.S3', 'an unavailable (NaN) price is rejected with ValueError', lp.site, 'no price lookup was read on the sizing paths')
+            continue
         for b in s['bodies']:
             bp = b['path']
             nan = None
